@@ -514,15 +514,31 @@ def c18_run(rng):
     nlines = rng.choice([4, 8, 14, 24])
     burst = rng.random() < 0.5
     closed = False
+    waiter = rng.randrange(nsess) + 1 if (nsess >= 2 and rng.random() < 0.35) else None
+    wait_at = rng.randrange(max(1, nlines - 2)) if waiter else None
+    parked = set()
     for n in range(nlines):
-        c = rng.randrange(nsess) + 1
+        free = [k + 1 for k in range(nsess) if (k + 1) not in parked]
+        c = rng.choice(free)
         text, direct = gen_command(rng, cls, rng.random() < 0.5)
         token = f"tok{c}x{counts[c]}q"
+        if waiter and n == wait_at and waiter not in parked:
+            # one session parks in until-closed; another one will close the pool near the end
+            c = waiter
+            token = f"tok{c}x{counts[c]}q"
+            tokens[f"{c}:{counts[c]}"] = token
+            counts[c] += 1
+            parked.add(c)
+            steps.append({"op": "line", "c": c, "text": "until-closed"})
+            continue
         if text.split(" ")[0] in ("until-closed", "gather-and-close"):
             if n < nlines - 2 or closed:
                 text = "num-running"
             else:
                 closed = True
+        elif waiter and n == nlines - 1 and not closed:
+            text = "gather-and-close --return-exceptions"
+            closed = True
         if rng.random() < 0.55:
             text = mutate_line(rng, text, token)
         elif rng.random() < 0.15:
